@@ -300,6 +300,13 @@ class G:
                     srcs.append(cur)
                 else:
                     srcs.append(self.same_shape_conv(cur, dw=True))
+            if not self.o.get('dup_cat', False):
+                # torch.fx `all_input_nodes` de-duplicates: cat([x, .., x]) is a C09 matter, opt-in only
+                seen = set()
+                for q, s_ in enumerate(srcs):
+                    if s_ in seen:
+                        srcs[q] = self.same_shape_conv(cur)
+                    seen.add(srcs[q])
             if all(s == cur for s in srcs):
                 srcs[0] = self.same_shape_conv(cur)
             cur = self.add(k='cat', src=srcs, dim=1)
